@@ -430,6 +430,7 @@ impl<'a, H: Header> TagIter<'a, H> {
 // `impl Iterator for TagIter` (R4: hosted as an inherent method, Self::Item written out)
 //@extractall multiboot2-common/src/iter.rs :: impl<'a, H: Header + 'a> Iterator for TagIter<'a, H>
 //@  type Item: skip
+//@  fn *: nocontract
 //@  fn *: rules R2
 //@  fn *: sigrewrite /Self::Item/ => /&'a DynSizedStructure<H>/ x*
 //@  fn next: ret r
